@@ -311,6 +311,12 @@ Definition step (cfg : config) (st : state) (o : op) : state :=
 Definition run_from (cfg : config) (st : state) (ops : list op) : state := fold_left (step cfg) ops st.
 Definition run (cfg : config) (ops : list op) : state := run_from cfg init ops.
 
+(** COPY: a holder inside COPY FROM STDIN / TO STDOUT is in phase [InTxn] (client.rs keeps the server while
+    server.in_copy_mode()); however the COPY ends — CommandComplete, or an ErrorResponse after CopyFail or
+    from the server itself (server.rs recv: both arms clear in_copy_mode) — the next ReadyForQuery('I') is
+    a [TxnEndRelease].  A task that ends while its server is still in COPY mode cannot clean it up
+    (server.rs checkin_cleanup marks it bad): [broken = true] whatever [expected_broken] says below. *)
+
 (** What has_broken answers for the exit classes whose answer does not depend on a race
     (used by the correspondence to predict [broken]; [None] = read back from the trace).
     [ph] is the holder's phase at the exit. *)
